@@ -265,6 +265,11 @@ def _tree_laws(root_node, lines: list[str], label: str) -> list[dict]:
 			pos = found + len(v)
 		for key in n.prop_keys():
 			value = getattr(n, key)
+			if isinstance(value, list) and len(value) > 1:
+				# the items of a list-valued property follow one another in the text
+				starts = [tuple(c.source_map['begin']) for c in value if not isinstance(c, defs.Empty) and type(c).__name__ != 'Proxy' and tuple(c.source_map['begin']) != (0, 0)]
+				if any(x > y for x, y in zip(starts, starts[1:])):
+					failures.append({'clause': 'ListsInSourceOrder', 'detail': f'{kind} {n.full_path}: the items of `{key}` are not in text order: {starts[:4]}', 'text': label, 'kind': f'{kind}.{key}'})
 			for child in (value if isinstance(value, list) else [value]):
 				visit(child, (b, e))
 
